@@ -180,11 +180,10 @@ Proof. vm_compute. repeat split; reflexivity. Qed.
    ====================================================================================================== *)
 From PNC Require Import Model.Wind Proofs.WindProofs.
 
-Theorem C08_wind_read_write_partial : forall c, w_wf c = true -> w_steps c <> [] -> 2 <= w_nx c * w_ny c ->
-  12 * Z.of_nat (length (w_steps c)) < w_body_bytes c + 4 ->
+Theorem C08_wind_read_write : forall c, w_wf c = true -> w_steps c <> [] -> 2 <= w_nx c * w_ny c ->
   w_mm_read (w_ny c) (w_nx c) (w_enc c) (4 * Z.of_nat (length (w_enc c))) = WOk (w_view_of c).
 Proof. exact w_mm_read_enc. Qed.
-Print Assumptions C08_wind_read_write_partial.
+Print Assumptions C08_wind_read_write.
 
 Theorem C08_wind_rewrite_idempotent : forall c, w_wf c = true ->
   match w_dec (w_nx c) (w_ny c) (w_nz c) (w_stag c) (w_dummy c) (w_enc c) with Some c' => w_enc c' = w_enc c | None => False end.
